@@ -701,6 +701,39 @@ pub fn c05(tier: Tier) -> i32 {
         }
     }
     let _ = i;
+    // S6 the alignment family: a multi-byte character at every byte offset after / before a construct
+    // that fails to parse, through Glob::new, FromStr and any([text])
+    {
+        let fam = alignment_family(tier);
+        rep.add("s6_alignment_family", fam.len() as u64);
+        fam.par_iter().for_each(|s| {
+            let r = run_one(s, true);
+            let via = guard(|| {
+                let _ = <Glob<'static> as std::str::FromStr>::from_str(s);
+                let _ = wax::any([s.as_str()]);
+                let _ = wax::any(["a", s.as_str()]);
+            });
+            let bad = if !(r == "OK" || r.starts_with("ERR ")) { Some(r.clone()) } else if let Err(p) = via { Some(format!("PANIC FromStr / any: {}", p)) } else { None };
+            if let Some(what) = bad {
+                rep.alarm(Alarm {
+                    class: None,
+                    key: format!("alignment {:?}", s),
+                    msg: format!("expression {:?}: {}", s, what),
+                    case: json!({"kind": "total", "spec": {"text": s}}),
+                });
+            }
+            else if let Some(e) = r.strip_prefix("ERR ") {
+                if !error_kind_ok(e) || spurious_compile_error(s, e) {
+                    rep.alarm(Alarm {
+                        class: None,
+                        key: format!("alignment kind {:?}", s),
+                        msg: format!("Glob::new({:?}) fails with {}", s, e),
+                        case: json!({"kind": "total", "spec": {"text": s}}),
+                    });
+                }
+            }
+        });
+    }
     // S5 the combinator family: every combinator tree of nesting depth <= 3 and arity 0..2 over the
     // leaves {combinator of no patterns, expression text, compiled glob, owned glob}; construction,
     // every query, matching, and installation as a negation
@@ -712,7 +745,7 @@ pub fn c05(tier: Tier) -> i32 {
         json!({
             "evaluations": evaluations,
             "distinct_nontrivial": distinct,
-            "rule": format!("S1 every string of length <= {} over the 22-symbol meta alphabet; every expression of the program space; S2 the bound family (21 bound spellings x 8 bodies x 5 contexts + ordered pairs); S3 the depth family (nesting / width / flag runs / literal lengths up to 10^4, 10^5 in the thorough tier) in isolated worker processes with address-space and CPU limits; S5 the combinator family (every combinator tree of depth <= 3 and arity 0..2 over no pattern / text / compiled / owned leaves: construction, queries, matching, not(), any of it); on every built glob every public operation and 6 paths; distinct_nontrivial = distinct outcome kinds (Ok, error messages, panic sites)", l),
+            "rule": format!("S1 every string of length <= {} over the 22-symbol meta alphabet; every expression of the program space; S2 the bound family (21 bound spellings x 8 bodies x 5 contexts + ordered pairs); S3 the depth family (nesting / width / flag runs / literal lengths up to 10^4, 10^5 in the thorough tier) in isolated worker processes with address-space and CPU limits; S6 the alignment family (a multi-byte character at every byte offset 0..=70 after / before 19 constructs, through Glob::new, FromStr and any); S5 the combinator family (every combinator tree of depth <= 3 and arity 0..2 over no pattern / text / compiled / owned leaves: construction, queries, matching, not(), any of it); on every built glob every public operation and 6 paths; distinct_nontrivial = distinct outcome kinds (Ok, error messages, panic sites)", l),
             "samples": [{"string": nth_string(&S1_ALPHABET, total - 1)}, {"string": nth_string(&S1_ALPHABET, total / 2)}, specs[0].clone(), specs[specs.len() - 1].clone()],
             "exhaustive": true,
         }),
@@ -1136,8 +1169,38 @@ fn check_glob_spans(rep: &Report, c: &mut Counters, text: &str) {
     }
 }
 
+/// The alignment family: malformed (and well-formed) expressions in which a multi-byte character
+/// begins at every byte offset 0..=70 after / before a construct that fails to parse or breaks a
+/// rule, so that every fixed-width cut, look-ahead or offset computed in bytes meets a character
+/// boundary it does not own. Closed family: 13 constructs x 71 offsets x 3 characters x 2 orders.
+pub fn alignment_family(tier: Tier) -> Vec<String> {
+    let constructs = ["{", "<", "[", "[!", "{a,", "<a:", "<a:1,", "***", "**a", "(?i", "(?", "\\", "a//", "{a}", "<a:1,2>", "*", "**/", "(?i)", "[a]"];
+    let chars = ["é", "金", "\u{10FFFF}"];
+    let max = tier.pick(70usize, 140usize);
+    let mut out = vec![];
+    for c in constructs {
+        for ch in chars {
+            for j in 0..=max {
+                let fill = "a".repeat(j);
+                out.push(format!("{}{}{}aa", c, fill, ch));
+                out.push(format!("{}{}aa{}", fill, ch, c));
+            }
+        }
+    }
+    out
+}
+
 pub fn c17(tier: Tier) -> i32 {
     let rep = Report::new("C17", tier, "exploration");
+    {
+        let fam = alignment_family(tier);
+        rep.add("alignment_family", fam.len() as u64);
+        fam.par_iter().for_each(|s| {
+            let mut c = Counters::new();
+            check_glob_spans(&rep, &mut c, s);
+            rep.merge(&c);
+        });
+    }
     let mut alphabet: Vec<char> = S1_ALPHABET.to_vec();
     alphabet.push('é');
     let l = tier.pick(4u32, 5u32);
